@@ -1,6 +1,7 @@
 package main
 
 import (
+	"go/token"
 	"go/types"
 	"golang.org/x/tools/go/ssa"
 	"strings"
@@ -31,6 +32,7 @@ func rulesC06(c *Ctx) {
 		"C06 (finalized versions stay readable until pruned) — decided: in Prune and Finalize of BOTH backends every destructive operation (batch delete/flush, txn delete/commit, metadata setter/commit, discard-timestamp) is dominated on every CFG path by the acceptance guards, each identified by the sentinel error its failing side returns and by its normalised failing condition (operands resolved to parameters / metadata getters): only-finalized, only-earliest, never-the-last, no-multipart, not-read-only for Prune; not-already-finalized, previous-finalized, multipart-version for Finalize; lone-node deletions are guarded by the not-lone set; the same guard set is required of each backend; Commit refuses finalized versions; the ABCI pruner syncs the database (success edge) between pruning and advancing the retained height, and the retained height it reports is the field written there.",
 		"NOT decided: correctness of the lone-node computation for all candidate-root histories, resurrection through versioned keys, concurrent readers, identical answers of both backends for all histories.")
 	c06Discard(c)
+	c06Round2(c, c.P.BuildIndex())
 	const rule = "C06.guard"
 	api := "storage/mkvs/db/api."
 	for _, pk := range []string{"badger", "pathbadger"} {
@@ -352,4 +354,78 @@ func phiIncludes(v, want ssa.Value, d int) bool {
 		}
 	}
 	return false
+}
+
+// c06Round2: rules added after the second round of seeds.
+func c06Round2(c *Ctx, ix *Index) {
+	// (1) pathbadger prunes a root type that "cannot have child roots" by deleting every node of the pruned version;
+	// a batch on top of such a root must therefore be refused for every version, not only inside one version
+	if fn := c.needFn("C06.childroots", "storage/mkvs/db/pathbadger.(*badgerNodeDB).NewBatch"); fn != nil {
+		var succ []ssa.Instruction
+		for _, r := range Returns(fn) {
+			if ev := retErrVal(r); ev != nil && isNilConst(ev) {
+				succ = append(succ, r)
+			}
+		}
+		c.GuardedByAny("C06.childroots", fn, "oldRoot is empty or its type may have child roots", []string{
+			`^common/crypto/hash\.\(\*Hash\)\.IsEmpty\(&\(param:oldRoot\)\.Hash\)$`,
+			`^!\*storage/mkvs/db/api\.PolicyForRoot\(param:oldRoot\)\.NoChildRoots$`,
+		}, Ev{Name: "batch created", Fn: fn, Ins: succ}, "Prune deletes all nodes of a no-child-roots type with their version, so nothing may be derived from such a root")
+	}
+	// (2) finalizing version v releases only v's sequence-number reservations; candidates already committed for later
+	// versions keep theirs (a released reservation would be handed out again and the new candidate would overwrite them)
+	for _, field := range []string{"NextPendingRootSeq", "PendingRootSeqs"} {
+		key := "storage/mkvs/db/pathbadger.serializedMetadata." + field
+		if len(ix.FieldStores[key]) == 0 {
+			// find the real struct name once
+			for k := range ix.FieldStores {
+				if strings.HasPrefix(k, "storage/mkvs/db/pathbadger.") && strings.HasSuffix(k, "."+field) {
+					key = k
+				}
+			}
+		}
+		bad := 0
+		n := 0
+		for _, s := range ix.FieldStores[key] {
+			st, isStore := s.In.(*ssa.Store)
+			if !isStore {
+				continue // MapUpdate m[k]=v : adds a reservation
+			}
+			n++
+			// whole-map assignment: only the lazy `make` on first use is allowed
+			if !strings.HasPrefix(vstr(st.Val), "make(map[") {
+				bad++
+				c.Fail("C06.seqno", field+" replaced<-"+fname(s.Fn), c.P.InstrPos(s.In), "the whole "+field+" map is replaced by "+vstrShort(st.Val)+": reservations of candidates committed for other versions are released and their node keys can be handed out again")
+			}
+		}
+		if bad == 0 {
+			c.OK("C06.seqno", field+" is only extended, or reduced by the finalized version's entry", "", itoa(n)+" whole-map store(s), all lazy `make`")
+		}
+	}
+	if fn := c.needFn("C06.seqno", "storage/mkvs/db/pathbadger.(*metadata).setLastFinalizedVersion"); fn != nil {
+		n := 0
+		ok := true
+		for _, call := range callsIn(fn) {
+			if calleeName(call) != "builtin.delete" {
+				continue
+			}
+			n++
+			if vstr(call.Common().Args[1]) != "param:version" {
+				ok = false
+			}
+		}
+		c.Check(ok && n == 2, "C06.seqno", fname(fn)+":deletes exactly the finalized version's reservations", c.P.Pos(fn.Pos()), "delete(NextPendingRootSeq, version) and delete(PendingRootSeqs, version)", "setLastFinalizedVersion no longer deletes exactly the finalized version's entries of the two reservation maps")
+	}
+	// (3) the keep-N pruner computes latest-keepN only when latest >= keepN (unsigned)
+	if fn := c.needFn("C06.keepn", "consensus/cometbft/abci.(*genericPruner).Prune"); fn != nil {
+		var subs []ssa.Instruction
+		for _, b := range fn.Blocks {
+			for _, in := range b.Instrs {
+				if bo, ok := in.(*ssa.BinOp); ok && bo.Op == token.SUB && isUnsigned(bo.Type()) && vstr(bo.X) == "param:latestVersion" && strings.HasSuffix(vstr(bo.Y), "param:p.keepN") {
+					subs = append(subs, in)
+				}
+			}
+		}
+		c.GuardedByAny("C06.keepn", fn, "latestVersion >= keepN", []string{`^param:latestVersion >= \*param:p\.keepN$`}, Ev{Name: "latestVersion - keepN", Fn: fn, Ins: subs}, "on a chain younger than keepN the unsigned subtraction would wrap and every version but the latest would be pruned")
+	}
 }
